@@ -25,7 +25,7 @@ realistic code changes that BREAK one stated property of the library while the l
 
 Your scratch git worktree of the library is {wt} . Work ONLY inside {top} (the worktree and {top}/out).
 Do not read or write /verif, /repo, /root/lw, /tmp/q or other directories under /tmp/seed and /tmp/seedprompts (they are out of bounds for you: your work must be
-independent of whatever checking machinery exists on this machine), and do not commit anything.
+independent of whatever checking machinery exists on this machine), and do not commit anything. Never use `git stash` (the stash is shared with other worktrees of the same repository): to get back to the clean tree use `git diff > /tmp/seed/<Cxx>/out/wip.diff; git checkout -- .` and `git apply` to return.
 
 THE PROPERTY ({p}: {props[p].get('title','')})
 
